@@ -85,6 +85,9 @@ structure St where
   halfs : List Nat := []
   out : List Ev := []            -- newest first
   halt : Bool := false           -- a sanitizer outcome was reached
+  sock : Bool := false           -- transport: QB_IPC_SOCKET (two dispatch_add per connection) / QB_IPC_SHM (one)
+  rate : Nat := 1                -- poll priority: 0 LOW (slow), 1 MED (normal, the default), 2 HIGH (fast)
+  fAdd : Nat := 0                -- fault injection: the fAdd-th call of the application's dispatch_add from now fails
 
 instance : Inhabited St := ⟨{}⟩
 
@@ -292,10 +295,13 @@ inductive Op
   | destroy | job | run
   | half (P : Nat) | halfgone (P : Nat)
   | finish
+  | sendn (K : Nat) (n : Nat)      -- client K queues n requests BEFORE the server loop runs
+  | rate (r : Nat)                 -- qb_ipcs_request_rate_limit: 0 slow, 1 normal, 2 fast
+  | fault (kind : Nat) (n : Nat)   -- the n-th call of dispatch_add (0) / dispatch_mod (1) / dispatch_del (2) fails
   deriving Repr, Inhabited
 
 def errName (r : Int) : String :=
-  if r = -13 then "EACCES" else if r = -11 then "EAGAIN" else s!"E{r.natAbs}"
+  if r = -13 then "EACCES" else if r = -11 then "EAGAIN" else if r = -12 then "ENOMEM" else s!"E{r.natAbs}"
 
 def St.ok (s : St) : St := if s.halt then s else s.emit (.res "ok")
 def St.skipRes (s : St) : St := s.emit (.res "skip")
@@ -334,13 +340,34 @@ def connFin (s : St) (K c : Nat) : St :=
   let s := s.svcUnref
   (if (s.conns c).st == .established && !(s.conns c).freed then { s with clients := (K, c) :: s.clients } else s).ok
 
-def connect (s : St) (K : Nat) : St :=
-  if s.svcGone || (lookupClient K s.clients).isSome then s.skipRes else
+/-- the application's dispatch_add poll handler (fault injection: `fAdd = n` makes the n-th call fail) -/
+def St.pollAdd (s : St) : Bool × St :=
+  if s.fAdd = 1 then (true, { s with fAdd := 0 }) else (false, { s with fAdd := s.fAdd - 1 })
+
+/-- qb_ipcs_uc_recv_and_auth when dispatch_add(process_auth) fails: the service reference taken for the
+    pending handshake is dropped again by destroy_ipc_auth_data; the socket is closed, no callback -/
+def authRefused (s : St) : St :=
+  ({ s with svcRc := s.svcRc + 1 }).svcUnref.emit (.res "refused")
+
+def peekAccept (s : St) : Int := match s.qAccept with | [] => 0 | e :: _ => e.ret
+
+/-- funcs.connect (qb_ipcs_shm_connect: one dispatch_add; qb_ipcs_us_connect / _sock_add_to_mainloop: two),
+    only called when connection_accept returned 0: the error it returns (0 = none).  The callbacks make
+    no dispatch_add call, so the counter can be advanced before connection_accept is run. -/
+def transportAdd (s : St) (acceptRet : Int) : Int × St :=
+  if acceptRet != 0 then (0, s) else
+  let a := s.pollAdd
+  if a.1 then (-12, a.2) else
+  if s.sock then (let b := a.2.pollAdd; if b.1 then (-12, b.2) else (0, b.2)) else (0, a.2)
+
+/-- handle_new_connection; `cerr` = what funcs.connect is going to return -/
+def connectGo (s : St) (K : Nat) (cerr : Int) : St :=
   let c := s.nconn + 1
   let p := (connA s).pop .accept
   let s := exec FUEL (p.2.cb .accept c p.1.ret) (.ops c p.1.ops)
   if s.halt then s else
-  if p.1.ret != 0 then connRejPost (exec FUEL (connRejPre s c) (.zero c)) p.1.ret
+  if p.1.ret != 0 || cerr != 0 then
+    connRejPost (exec FUEL (connRejPre s c) (.zero c)) (if p.1.ret != 0 then p.1.ret else cerr)
   else
     let s := s.touch c
     if s.halt then s else
@@ -350,6 +377,14 @@ def connect (s : St) (K : Nat) : St :=
     let s := s.touch c
     if s.halt then s else
     connFin (exec FUEL (connEstPre s c) (.zero c)) K c
+
+def connect (s : St) (K : Nat) : St :=
+  if s.svcGone || (lookupClient K s.clients).isSome then s.skipRes else
+  -- qb_ipcs_us_connection_acceptor -> qb_ipcs_uc_recv_and_auth: dispatch_add(process_auth)
+  let a := s.pollAdd
+  if a.1 then authRefused a.2 else
+  let b := transportAdd a.2 (peekAccept s)
+  connectGo b.2 K b.1
 
 def brOpenD (s : St) (c : Nat) : St :=
   if s.fixDispatch then s.ref c fun k => { k with brDispatch := true } else s.touch c
@@ -367,6 +402,47 @@ def dispatchMsg (s : St) (c : Nat) : St :=
   if s.halt then s else
   if s.fixDispatch then exec FUEL (brCloseD s c) (.zero c) else s
 
+/-- dispatch_cleanup with res = 0 / the early return: drop the dispatch reference -/
+def dispatchEnd (s : St) (c : Nat) : St :=
+  if s.fixDispatch then exec FUEL (brCloseD s c) (.zero c) else s
+
+/-- _request_q_len_get: how many queued requests one wake-up of the dispatcher may drain -/
+def batchMax (s : St) : Nat := if s.rate = 0 then 1 else if s.rate = 1 then 5 else 50
+
+/-- the do { _process_request_ } while (avail > 0 && res > 0) loop of
+    qb_ipcs_dispatch_connection_request with `n` = avail requests left, inside the dispatch reference:
+    after EVERY request the state is tested ("disconnected from inside msg_process()": unref, return) -/
+def batchLoop : Nat → St → Nat → St
+  | 0, s, c => dispatchEnd s c
+  | n+1, s, c =>
+    let p := s.pop .msg
+    let s := exec FUEL (p.2.cb .msg c 0) (.ops c p.1.ops)
+    if s.halt then s else
+    -- _process_request_: c->service->funcs.reclaim(&c->request); c->state
+    let s := s.touch c
+    if s.halt then s else
+    if s.fixDispatch && (s.conns c).st != .established then dispatchEnd s c
+    else batchLoop n s c
+
+def serverSees (s : St) (c : Nat) : Bool :=
+  !(s.conns c).freed && (s.conns c).st == .established
+
+/-- `rem` requests are queued by the client before the server loop runs: the loop wakes the dispatcher
+    (level triggered) until the queue is empty or the connection is no longer polled -/
+def sendLoop : Nat → St → Nat → Nat → St
+  | 0, s, _, _ => s
+  | f+1, s, c, rem =>
+    if s.halt || rem == 0 || !serverSees s c then s else
+    let s1 := brOpenD s c
+    if s1.halt then s1 else
+    sendLoop f (batchLoop (min rem (batchMax s)) s1 c) c (rem - min rem (batchMax s))
+
+/-- qb_ipcs_request_rate_limit: poll priority; walks the list with a reference on each connection
+    (flow control off, dispatch_mod whose result is ignored) -/
+def rateLimit (s : St) (r : Nat) : St :=
+  let s := s.touchSvc
+  { (s.list.foldl (fun s c => s.touch c) s) with rate := r }
+
 /-- POLLHUP on the connection's socket -/
 def dispatchHup (s : St) (c : Nat) : St :=
   let s := brOpenD s c
@@ -374,9 +450,6 @@ def dispatchHup (s : St) (c : Nat) : St :=
   let s := exec FUEL s (.disc c)
   if s.halt then s else
   if s.fixDispatch then exec FUEL (brCloseD s c) (.zero c) else s
-
-def serverSees (s : St) (c : Nat) : Bool :=
-  !(s.conns c).freed && (s.conns c).st == .established
 
 def runJob (s : St) : Option St :=
   match s.jobs with
@@ -458,10 +531,18 @@ def step (s : St) (op : Op) : St :=
   | .job => match runJob s with | none => s.skipRes | some s' => s'.ok
   | .run => (runJobs 1000 s).ok
   | .half P =>
-    if s.svcGone || s.halfs.contains P then s.skipRes
-    else ({ s with halfs := P :: s.halfs, svcRc := s.svcRc + 1 }).ok
+    if s.svcGone || s.halfs.contains P then s.skipRes else
+    -- qb_ipcs_uc_recv_and_auth: dispatch_add(process_auth)
+    if s.pollAdd.1 then authRefused s.pollAdd.2
+    else ({ s.pollAdd.2 with halfs := P :: s.halfs, svcRc := s.svcRc + 1 }).ok
   | .halfgone P => if s.halfs.contains P then (halfGone s P).ok else s.skipRes
   | .finish => finish s
+  | .sendn K n =>
+    match lookupClient K s.clients with
+    | none => s.skipRes
+    | some c => (sendLoop n s c n).ok
+  | .rate r => if s.svcGone then s.skipRes else (rateLimit s r).ok
+  | .fault kind n => (if kind = 0 then { s with fAdd := n } else s).ok
 
 def run (s : St) (ops : List Op) : St := ops.foldl step s
 
